@@ -621,3 +621,48 @@ def rule_cycle_exists(ctx, c, rule):
     ctx.check((runs and ok_join) or bool(direct), rule, fl.path, fl.span,
               "flush() runs one collector cycle and waits for it (helper thread joined before returning)",
               "spawn+join" if runs else "direct call", "runs handle_commands: %s, joined on every path: %s" % (runs, ok_join), extra="flush")
+
+
+def rule_registry_in_place(ctx, c, rule):
+    """C01-R5 / C08-R3: the receiver registry is only pushed to (registration) and filtered in place under its lock;
+    it is never moved out, replaced or cleared, so a thread that registers during a drain is not forgotten."""
+    facts = c.facts
+    REG = r"alloc::vec::Vec<fastrace::util::spsc::Receiver<fastrace::collector::command::CollectCommand>>"
+    ALLOWED = r"(alloc::vec::Vec::<T, A>::(push|retain|retain_mut|len|is_empty|iter|iter_mut|capacity|reserve)|DerefMut>?::deref_mut|Deref>?::deref)$"
+    bad = []
+    n = 0
+    for g in facts.fns.values():
+        if g.crate != "fastrace":
+            continue
+        for b in g.calls():
+            t = g.term(b)
+            if g.blocks[b]["cleanup"] or not t.get("arg_tys"):
+                continue
+            if not any(re.search(REG, a) for a in t["arg_tys"]):
+                continue
+            n += 1
+            if not re.search(ALLOWED, t["callee"]) and not re.search(r"lock_api::mutex::Mutex::<R, T>::lock$", t["callee"]):
+                bad.append((g.path, g.loc(b), t["callee"]))
+        # whole-vector stores through the guard
+        for bi, blk in enumerate(g.blocks):
+            for s in blk["stmts"]:
+                if s["k"] == "assign" and s["lhs"]["p"] == ["*"]:
+                    l = s["lhs"]["l"]
+                    if l < len(g.locals) and re.search(r"^&mut " + REG + "$", g.locals[l]):
+                        bad.append((g.path, s["span"], "assignment of a whole Vec<Receiver> through the registry guard"))
+    ctx.check(not bad and n >= 3, rule, "fastrace::collector::global_collector::SPSC_RXS", "-",
+              "the receiver registry is only pushed to and retained in place (never taken, replaced, drained or cleared)",
+              "%d uses, all push/retain/deref" % n, "%s" % bad[:4], extra="registry-ops")
+    rs = c.retain_site()
+    if rs is None:
+        return
+    b, cf, agg = rs
+    fn = c.fn
+    root, _ = root_local(fn, fn.term(b)["args"][0])
+    sd = fn.single_def(root)
+    under_lock = bool(sd) and sd[1] == "term" and re.search(r"lock_api::mutex::Mutex::<R, T>::lock$", sd[2]["callee"]) and \
+        any(o.kind == "static" and str(o.key).endswith("::SPSC_RXS") for o in c.prov.of_operand(fn, sd[2]["args"][0]))
+    ctx.check(under_lock, rule, HC, fn.loc(b),
+              "the drain filters the registry itself while holding its lock (retain_mut on the locked Vec, not on a copy moved out of it)",
+              "receiver list is _%d = SPSC_RXS.lock()" % root, "retain_mut operates on _%d (%s), which is not the SPSC_RXS guard" % (root, fn.locals[root]),
+              extra="registry-locked")
